@@ -272,7 +272,7 @@ def run(ctx):
         import json
         sc = json.load(open(os.path.join(vplib.VERIF, "corpus", "C14", "f12_not_ready.json")))
         stress = [dict(sc, name="F12 witness, run %d" % i) for i in range(300)]
-    want = 300 if ctx.quick else 20000
+    want = 300 if ctx.quick else 6000
     scenarios, plan = [], []        # plan[s] = [[exchange per request] per connection]
     total = 0
     while total < want:
